@@ -531,6 +531,12 @@ pub fn c16_worlds(tier: Tier) -> Vec<WorldSpec> {
             v.push(s);
         }
     }
+    // pure listeners that do not keep the talkback they are greeted with
+    let mut s = spec(Op::Interval(7000), 6, 1);
+    s.cfg.max_probes = 2;
+    s.cfg.drop_talkback = true;
+    s.name = format!("{} x2 talkback-dropped E=6 D=1", s.name);
+    v.push(s);
     v
 }
 
